@@ -22,7 +22,14 @@ const c11MaxLen = 1024 // the statement's maximum NTS packet size
 
 func c11World(t *testing.T, r *simcore.Run) any {
 	tp := r.Tape
-	w := newNTSWorld(r, 2)
+	var tr ntsTransport
+	if r.Index%4 == 1 {
+		tr = ntsSCIONTransport{newNTSSCIONWorld(r, 2)}
+		r.Probe("transport:scion")
+	} else {
+		tr = ntsIPTransport{newNTSWorld(r, 2)}
+	}
+	net := tr.network()
 	nattempts := 6 + tp.Intn(40, "attempts")
 	// loss script: bursts
 	dropReq := make([]bool, nattempts)
@@ -30,6 +37,11 @@ func c11World(t *testing.T, r *simcore.Run) any {
 	lossy := tp.Bool(3, 4, "lossy")
 	maxBurst := 1 + tp.Intn(10, "maxburst")
 	avoidLevel1 := !tp.Bool(1, 5, "allow-level-1") // known finding F13 lives at pool level 1
+	if tr.name() == "scion" {
+		// (over SCION the F13 panic strikes on the client's own measurement goroutine and takes
+		// the worker process down; pool level 1 is left to the IP runs)
+		avoidLevel1 = true
+	}
 	if lossy {
 		for i := 0; i < nattempts; {
 			if tp.Bool(1, 3, "burst?") {
@@ -54,6 +66,7 @@ func c11World(t *testing.T, r *simcore.Run) any {
 	}
 	gaps := tp.Bool(1, 3, "daygaps")
 	replays := tp.Bool(1, 2, "replays")
+	restarts := tp.Bool(1, 3, "restarts")
 	var pastResponses [][]byte
 	cur := -1 // attempt index
 	seenCookies := map[string]int{}
@@ -67,25 +80,26 @@ func c11World(t *testing.T, r *simcore.Run) any {
 	var lastReq *reqInfo
 	var lastReply *simnet.Datagram
 	replyCookies := 0
-	w.net.Intercept = func(d *simnet.Datagram) ([]simnet.Route, bool) {
-		if cur < 0 || len(d.Payload) <= 48 {
+	net.Intercept = func(d *simnet.Datagram) ([]simnet.Route, bool) {
+		if cur < 0 {
 			return nil, false
 		}
-		if d.SrcConn != nil && d.SrcConn.Host() == w.cli && dropReq[cur] {
+		if tr.isRequest(d) && dropReq[cur] {
 			r.Fault("request-lost")
 			return nil, true
 		}
-		if d.SrcConn != nil && d.SrcConn.Host() == w.srv && dropResp[cur] {
+		if tr.isReply(d) && dropResp[cur] {
 			r.Fault("response-lost")
 			pastResponses = append(pastResponses, append([]byte(nil), d.Payload...))
 			return nil, true
 		}
-		if d.SrcConn != nil && d.SrcConn.Host() == w.srv {
+		if tr.lastHopToClient(d) {
 			// a late or replayed genuine response to an earlier request of this session reaches
-			// the client ahead of the genuine one
+			// the client ahead of the genuine one (over SCION the router relays the bytes
+			// unchanged, so a recorded reply can be replayed on the last hop as it is)
 			defer func() { pastResponses = append(pastResponses, append([]byte(nil), d.Payload...)) }()
 			if replays && len(pastResponses) > 0 && tp.Bool(1, 3, "replay?") {
-				old := w.net.NewDatagram(d.Src, d.Dst, pastResponses[tp.Intn(len(pastResponses), "which")], "replayed response")
+				old := net.NewDatagram(d.Src, d.Dst, pastResponses[tp.Intn(len(pastResponses), "which")], "replayed response")
 				r.Fault("stale-response-replayed")
 				return []simnet.Route{{D: old, Delay: 40 * time.Microsecond}, {D: d, Delay: 120 * time.Microsecond}}, true
 			}
@@ -93,13 +107,14 @@ func c11World(t *testing.T, r *simcore.Run) any {
 		return nil, false
 	}
 	level := 0 // pool level at the start of the attempt, as the monitor infers it
-	w.net.OnSend = func(d *simnet.Datagram) {
-		if len(d.Payload) <= 48 || d.SrcConn == nil {
+	net.OnSend = func(d *simnet.Datagram) {
+		if !tr.isRequest(d) && !tr.isReply(d) {
 			return
 		}
-		fields := ntsWalk(d.Payload)
-		switch d.SrcConn.Host() {
-		case w.cli:
+		pkt := tr.ntp(d) // the NTP/NTS packet (the SCION payload, over SCION)
+		fields := ntsWalk(pkt)
+		switch {
+		case tr.isRequest(d):
 			ri := &reqInfo{d: d}
 			var ckLen int
 			for _, f := range fields {
@@ -132,8 +147,8 @@ func c11World(t *testing.T, r *simcore.Run) any {
 				r.Fail("C11", "request/placeholder-count", "request at pool level %d carries %d placeholders (want %d)", level, ri.nph, 8-level)
 				return
 			}
-			if len(d.Payload) > c11MaxLen {
-				r.Fail("C11", "request/too-long", "request at pool level %d is %d bytes", level, len(d.Payload))
+			if len(pkt) > c11MaxLen {
+				r.Fail("C11", "request/too-long", "request at pool level %d is %d bytes", level, len(pkt))
 				return
 			}
 			if n := seenCookies[string(ri.cookie)]; n > 0 {
@@ -142,22 +157,22 @@ func c11World(t *testing.T, r *simcore.Run) any {
 			}
 			seenCookies[string(ri.cookie)]++
 			r.Probe(fmt.Sprintf("request-at-level-%d", level))
-		case w.srv:
+		case tr.isReply(d):
 			lastReply = d
-			if len(d.Payload) > c11MaxLen {
-				r.Fail("C11", "reply/too-long", "reply is %d bytes", len(d.Payload))
+			if len(pkt) > c11MaxLen {
+				r.Fail("C11", "reply/too-long", "reply is %d bytes", len(pkt))
 				return
 			}
-			if lastReq == nil || d.Cause != lastReq.d.ID {
+			if lastReq == nil || tr.requestOf(d) != lastReq.d.ID {
 				return // reply to a duplicate or older request: not judged here
 			}
-			data := w.cl.Auth.NTSKEFetcher.VerifData()
-			inner, ok := ntsVerify(d.Payload, data.S2cKey)
+			data := tr.fetcher().VerifData()
+			inner, ok := ntsVerify(pkt, data.S2cKey)
 			if !ok {
 				r.Fail("C11", "reply/not-authentic", "the requester cannot authenticate the reply under its server-to-client key")
 				return
 			}
-			if !bytes.Equal(uidOf(d.Payload), lastReq.uid) {
+			if !bytes.Equal(uidOf(pkt), lastReq.uid) {
 				r.Fail("C11", "reply/unique-id", "reply does not echo the request's unique identifier")
 				return
 			}
@@ -173,7 +188,7 @@ func c11World(t *testing.T, r *simcore.Run) any {
 					return
 				}
 				batch[string(f.body)] = true
-				sc, _, err := w.openCookie(f.body)
+				sc, _, err := openCookieWith(tr.provider(), f.body)
 				if err != nil {
 					r.Fail("C11", "reply/cookie-does-not-open", "a fresh cookie does not open under a currently valid server key: %v", err)
 					return
@@ -187,8 +202,8 @@ func c11World(t *testing.T, r *simcore.Run) any {
 			if n != want {
 				// "as many as fit": fewer are acceptable only if one more would not fit
 				perCookie := 4 + len(lastReq.cookie)
-				if !(n < want && len(d.Payload)+perCookie > c11MaxLen) {
-					r.Fail("C11", "reply/cookie-count", "reply to a request for %d cookies carries %d (reply length %d)", want, n, len(d.Payload))
+				if !(n < want && len(pkt)+perCookie > c11MaxLen) {
+					r.Fail("C11", "reply/cookie-count", "reply to a request for %d cookies carries %d (reply length %d)", want, n, len(pkt))
 					return
 				}
 			}
@@ -198,7 +213,7 @@ func c11World(t *testing.T, r *simcore.Run) any {
 	}
 	ok, failed, rekeys := 0, 0, 0
 	var hist []string
-	w.goSafe("driver", func() {
+	tr.spawn("driver", func() {
 		defer r.Finish()
 		for i := 0; i < nattempts && r.Violation() == nil; i++ {
 			gap := time.Duration(tp.Range(int64(100*time.Millisecond), int64(4*time.Second), "gap"))
@@ -206,20 +221,33 @@ func c11World(t *testing.T, r *simcore.Run) any {
 				gap = time.Duration(tp.Range(int64(time.Hour), int64(5*24*time.Hour), "days"))
 				r.Fault("idle-gap-days")
 			}
-			if r.Sleep(fmt.Sprintf("gap:%d", i), w.cli.Node, gap).Killed {
+			if r.Sleep(fmt.Sprintf("gap:%d", i), tr.clientNode(), gap).Killed {
 				return
 			}
 			cur = i
-			before := w.cl.Auth.NTSKEFetcher.VerifPoolLen()
+			if tr.name() == "scion" && tr.fetcher().VerifPoolLen() == 1 {
+				// (expired cookies can take the pool down to level 1 whatever the loss script says;
+				// over SCION the F13 panic there would kill the worker process: the client is
+				// "restarted" instead - it forgets its session and re-keys)
+				tr.fetcher().VerifForget()
+				r.Fault("client-restart")
+			}
+			if restarts && tp.Bool(1, 20, "restart?") {
+				// the client process is restarted: nothing of its session survives (there is no
+				// durable state), the next attempt performs a complete key exchange
+				tr.fetcher().VerifForget()
+				r.Fault("client-restart")
+			}
+			before := tr.fetcher().VerifPoolLen()
 			level = before
-			ke0 := w.nextK
+			ke0 := tr.keyExchanges()
 			if before == 0 {
 				level = 8 // the client re-keys first; the project's server issues eight cookies
 			}
 			lastReq, lastReply, replyCookies = nil, nil, 0
-			_, _, err := w.measureIP(w.cl, 300*time.Millisecond)
-			after := w.cl.Auth.NTSKEFetcher.VerifPoolLen()
-			if w.nextK != ke0 {
+			err := tr.measure(300 * time.Millisecond)
+			after := tr.fetcher().VerifPoolLen()
+			if tr.keyExchanges() != ke0 {
 				rekeys++
 				r.Probe("re-keyed")
 			}
@@ -229,6 +257,7 @@ func c11World(t *testing.T, r *simcore.Run) any {
 			if err == nil {
 				ok++
 				r.Probe("exchange-ok")
+				r.Probe("exchange-ok:" + tr.name())
 				if after < level {
 					r.Fail("C11", "pool/shrunk", "%s: a successful exchange shrank the pool from %d to %d", line, level, after)
 					return
